@@ -427,7 +427,7 @@ AcceptedOnlyWithin == phase = "done" => P_AcceptedOnlyWithin(result, cur.m)
 StoredWithinLimits == P_StoredWithin(st.deps)
 RejectedNoEffect   == [][P_RejectedNoEffect(result', st, st')]_vars
 \* the procedure against the oracle, on every enumerated message (J1 proper)
-AdmitImpliesWithin == (cur.m.kind = "create" /\ Admit(cur.m)) => WithinLimits(cur.m)
+AdmitImpliesWithin == (phase = "submit" /\ cur.m.kind = "create" /\ Admit(cur.m)) => WithinLimits(cur.m)
 
 \* J2 export: one line per enumerated message (evaluated once per generated successor)
 ExportMsg == (phase = "submit" /\ phase' = "done") =>
@@ -448,18 +448,33 @@ LastUnits == Len(cur.m.groups[NGroups].units)
 SetCur(m) == cur.n < BuildSteps /\ cur' = [cur EXCEPT !.m = m, !.n = @ + 1] /\ UNCHANGED <<phase, st, result>>
 
 AddGroup == /\ phase = "build" /\ NGroups <= MaxGroupCount
-            /\ \E nm \in {GName(NGroups + 1), GName(1), ""} :
-                 SetCur([cur.m EXCEPT !.groups = Append(@, [name |-> nm, units |-> <<>>])])
+            /\ SetCur([cur.m EXCEPT !.groups = Append(@, [name |-> GName(NGroups + 1), units |-> <<BaseUnit>>])])
+AddOddGroup == /\ phase = "build" /\ NGroups <= MaxGroupCount /\ cur.n >= BuildSteps - 3
+               /\ \E nm \in {GName(1), ""} :
+                    SetCur([cur.m EXCEPT !.groups = Append(@, [name |-> nm, units |-> <<BaseUnit>>])])
 AddUnit  == /\ phase = "build" /\ NGroups >= 1 /\ LastUnits <= MaxGroupUnits
             /\ SetCur([cur.m EXCEPT !.groups[NGroups].units = Append(@, BaseUnit)])
 SetUnitField == /\ phase = "build" /\ NGroups >= 1 /\ LastUnits >= 1
                 /\ \E f \in Fields : \E c \in FieldClasses(f) : SetCur(SetField(cur.m, NGroups, LastUnits, f, c))
-SetDepField == /\ phase = "build"
+SetDepField == /\ phase = "build" /\ cur.n >= BuildSteps - 3
                /\ \/ \E v \in VersionClasses : SetCur([cur.m EXCEPT !.version = v])
                   \/ \E d \in DepositClasses : SetCur([cur.m EXCEPT !.deposit = d])
                   \/ \E dd \in DDenoms : SetCur([cur.m EXCEPT !.ddenom = dd])
                   \/ \E i \in IdClasses : SetCur([cur.m EXCEPT !.idc = i])
-Finish == /\ phase = "build" /\ phase' = "submit" /\ UNCHANGED <<cur, st, result>>
+\* (TLC's simulator picks an enabled action uniformly, then one of its successors: Finish is held back until the
+\* message has a group and some steps were taken, or the step budget is used up)
+Finish == /\ phase = "build" /\ ((NGroups >= 1 /\ cur.n >= BuildSteps - 6) \/ cur.n >= BuildSteps)
+          /\ phase' = "submit" /\ UNCHANGED <<cur, st, result>>
 
-BuildNext == AddGroup \/ AddUnit \/ SetUnitField \/ SetDepField \/ Finish \/ Submit
+BuildNext == AddGroup \/ AddOddGroup \/ AddUnit \/ SetUnitField \/ SetDepField \/ Finish \/ Submit
+
+\* second builder: several groups of several individually valid units whose amounts and replica counts are the
+\* ones that matter for the per-group totals (random points of the space the `totals` family covers for <= 3 units)
+NewGroupU  == /\ phase = "build" /\ NGroups <= MaxGroupCount
+              /\ \E r \in Res : \E u \in TotUnits(r) :
+                    SetCur([cur.m EXCEPT !.groups = Append(@, [name |-> GName(NGroups + 1), units |-> <<u>>])])
+AddTotUnit == /\ phase = "build" /\ NGroups >= 1 /\ LastUnits <= MaxGroupUnits
+              /\ \E r \in Res : \E u \in TotUnits(r) :
+                    SetCur([cur.m EXCEPT !.groups[NGroups].units = Append(@, u)])
+BuildNext2 == NewGroupU \/ AddTotUnit \/ Finish \/ Submit
 =============================================================================
